@@ -5,6 +5,9 @@ from vx.lower import S, RangeFor, Call
 MAXS = 4096
 
 PRELUDE = r'''
+struct utils__char_names { char arr[256][5]; };   /* char arr[meta::distinct_chars_count][name_size] */
+static inline size_t vx_idx(size_t i, size_t n) { __CPROVER_assert(i < n, "VX_BOUND subscript within the declared (logical) dimension"); return i; }
+
 #define VX_MAXS 4096
 
 int vx_thrown;
@@ -41,8 +44,7 @@ __CPROVER_loop_invariant(__CPROVER_same_object(str1, g_s1) && __CPROVER_same_obj
    && (g_k < VX_OFF(str1) ==> g_s1[g_k] == g_s2[g_k]))
 __CPROVER_decreases(g_n1 - VX_OFF(str1))
 """},
-    weave=[dict(at=r'return\s+true\s*;', code='g_stop = VX_OFF(str1);', where='before'),
-           dict(at=r'return\s+false\s*;', code='g_stop = VX_OFF(str1);', where='before')],
+    weave=[dict(where='fn-end', code='g_stop = VX_OFF(str1);')],      # ghost observation at every return, whatever it returns
     harness=r"""
 void h_utils__str_equal(void) {
   size_t n1, n2; __CPROVER_assume(n1 < VX_MAXS && n2 < VX_MAXS);
@@ -202,6 +204,22 @@ void h_utils__find_str(void) {
     props=['C17'], replace=['vx_str_equal_abs'], unwind=34,
 )
 
+from vx.lower import Bound, S as _S
+char_names__name = Fn(
+    name='utils__char_names__name', scope=[r'class\s+char_names\b'],
+    header=r'constexpr\s+const char\*\s+name\(char c\)\s*const',
+    csig='const char* utils__char_names__name(const struct utils__char_names* self, char c)',
+    rules=[_S(r'(?<![\w.>])arr\b', 'self->arr', name='R4:members'), Bound(r'self->arr', ['256']), _S(r'\bchar_to_idx\(', 'utils__char_to_idx(', min=0, name='R2:same-namespace call')],
+    contract=r"""
+__CPROVER_requires(__CPROVER_r_ok(self, sizeof(*self)))
+__CPROVER_assigns()
+/* the printable name of a byte is looked up by its UNSIGNED value: any byte, also >= 0x80, stays inside the 256-entry table (C06) */
+__CPROVER_ensures(__CPROVER_return_value == &self->arr[(size_t)(unsigned char)c][0])
+""",
+    harness='void h_utils__char_names__name(void) { struct utils__char_names n; char c; utils__char_names__name(&n, c); }',
+    props=['C06', 'C16'],
+)
+
 POST = r'''
 '''
 
@@ -213,8 +231,10 @@ bool vx_str_equal_abs(const char* a, const char* b)
 __CPROVER_requires(__CPROVER_same_object(a, vx_pool) && __CPROVER_POINTER_OFFSET(a) < 64)
 __CPROVER_ensures(__CPROVER_return_value == vx_eq[__CPROVER_POINTER_OFFSET(a)])
 __CPROVER_assigns();
-''', [char_to_idx, idx_to_char, is_printable, is_hex_digit, is_dec_digit, str_equal, find_char, str_len, find_str],
+''', [char_to_idx, idx_to_char, is_printable, is_hex_digit, is_dec_digit, str_equal, find_char, str_len, find_str, char_names__name],
     consts=[('uninitialized', r'constexpr\s+size_t\s+uninitialized\s*=\s*([^;]+);', None),
             ('uninitialized16', r'constexpr\s+size16_t\s+uninitialized16\s*=\s*([^;]+);', None),
             ('uninitialized32', r'constexpr\s+size32_t\s+uninitialized32\s*=\s*([^;]+);', None)],
     post=POST)
+
+UNIT.facts = [r'char arr\[meta::distinct_chars_count\]\[name_size\] = \{\};', r'const static size_t name_size = 5;', r'constexpr size_t distinct_chars_count = distinct_values_count<char>;']
